@@ -226,7 +226,7 @@ def oracle(ctx):
             sols[("eq-" + meth, None)] = y
         ref = sols.get(("newton", True))
         for k, v in sols.items():
-            if ref is not None and (v - ref).abs().max() > 1e-4:
+            if ref is not None and not (v - ref).abs().max() <= 1e-4:
                 ctx.fail("oracle", "root:methods-disagree", {"pair": ["newton", str(k)], "shape": list(shape)}, float((v - ref).abs().max()), "same point")
         # minimize (real only)
         if not cplx:
@@ -251,7 +251,7 @@ def oracle(ctx):
                     if float(val) > float(obj(torch.zeros(shape, dtype=DT), w, c)) + 1e-12:
                         ctx.fail("oracle", "min:%s:objective-increased" % meth, info, float(val), "<= objective at the initial guess")
                     tol = 1e-5 if meth in ("broyden1", "newton") else 1e-3
-                    if float(grad.norm()) > tol:
+                    if not float(grad.norm()) <= tol:
                         ctx.fail("oracle", "min:%s:gradient-not-vanishing" % meth, info, float(grad.norm()), "< %g" % tol)
     # gd / adam stopped by a tiny iteration budget with an overshooting step: either a ConvergenceWarning, or the returned
     # point is no worse than the initial guess (seeded defect C03/6: the best-point fallback skipped for maxiter=1)
@@ -268,7 +268,7 @@ def oracle(ctx):
                     continue
                 ctx.count(("min-tiny-budget", meth, maxiter, step))
                 v0, v1 = float(objq(torch.zeros(3, dtype=DT), wq, cq)), float(objq(y, wq, cq))
-                if not warned and v1 > v0 + 1e-12:
+                if not warned and not v1 <= v0 + 1e-12:
                     ctx.fail("oracle", "min:%s:silent-but-objective-increased" % meth, {"method": meth, "maxiter": maxiter, "step": step},
                              {"objective_at_result": v1, "objective_at_initial_guess": v0}, "a ConvergenceWarning, or an objective no larger than at the initial guess")
     # far initial guesses on a globally contractive map: the stopping test must be the ABSOLUTE f_tol the caller asked
@@ -309,12 +309,12 @@ def oracle(ctx):
     except Exception as e:
         ctx.fail("oracle", "root:early-exit-complex", {}, repr(e)[:200], "the complex root itself")
     y, warned = run(lambda: equilibrium(lambda y: 0.5 * torch.ones_like(y), torch.zeros(2, dtype=DT), method="anderson_acc"))
-    if warned or (y - 0.5).abs().max() > 1e-6:
+    if warned or not (y - 0.5).abs().max() <= 1e-6:
         ctx.fail("oracle", "equil:anderson-early-exit", {}, y, [0.5, 0.5])
     # an iterate that hits the root exactly before the x test passes
     try:
         y, warned = run(lambda: minimize(lambda y: ((y - 1) ** 2).sum(), torch.zeros(2, dtype=DT), method="broyden1"))
-        if warned or (y - 1).abs().max() > 1e-6:
+        if warned or not (y - 1).abs().max() <= 1e-6:
             ctx.fail("oracle", "min:exact-root-hit", {}, y, [1.0, 1.0])
     except Exception as e:
         ctx.fail("oracle", "min:exact-root-hit", {}, repr(e)[:200], "silent convergence")
